@@ -188,6 +188,34 @@ Variables (n C num_iter : nat) (mm : cols F -> cols F) (tol brk : F) (n_extra : 
 Variable c : nat.
 Hypothesis hc : (c < C)%N.
 
+(* the bridge lemmas specialised to column c (no side conditions left) *)
+Lemma Ecsub X Y : cv n (csub ArR n C X Y) c = cv n X c - cv n Y c.
+Proof. exact: cv_csub. Qed.
+Lemma Ecscale_l s X : cv n (cscale_l ArR n C s X) c = vget ArR s c *: cv n X c.
+Proof. exact: cv_cscale_l. Qed.
+Lemma Ecscale_r s X : cv n (cscale_r ArR n C X s) c = vget ArR s c *: cv n X c.
+Proof. exact: cv_cscale_r. Qed.
+Lemma Ecdiv s X : cv n (cdiv ArR n C X s) c = (vget ArR s c)^-1 *: cv n X c.
+Proof. exact: cv_cdiv. Qed.
+Lemma Ecdot X Y : vget ArR (cdot ArR n C X Y) c = dotv (cv n X c) (cv n Y c).
+Proof. exact: vget_cdot. Qed.
+Lemma Ecnorm X : vget ArR (cnorm ArR n C X) c = Num.sqrt (dotv (cv n X c) (cv n X c)).
+Proof. exact: vget_cnorm. Qed.
+Lemma Ereorth qm k R : cv n (reorth ArR n C qm k R) c = proj k (fun i => cv n (qrow qm i) c) (cv n R c).
+Proof. exact: cv_reorth. Qed.
+Lemma Einner qm k R i : (i <= k)%N ->
+  vget ArR (nth [::] (inner_products ArR n C qm k R) i) c = dotv (cv n (qrow qm i) c) (cv n R c).
+Proof. by move=> hi; exact: vget_inner. Qed.
+Lemma Elz_r qm tm k :
+  cv n (lz_r ArR n C mm qm tm k) c = cv n (mm (qrow qm k)) c - tget ArR tm k k.-1 c *: cv n (qrow qm k.-1) c.
+Proof. exact: cv_lz_r. Qed.
+Lemma Elz_alpha qm k r : vget ArR (lz_alpha ArR n C qm k r) c = dotv (cv n (qrow qm k) c) (cv n r c).
+Proof. exact: vget_lz_alpha. Qed.
+Lemma Elz_r2 qm k r alpha :
+  cv n (lz_r2 ArR n C qm k r alpha) c
+  = proj k (fun i => cv n (qrow qm i) c) (cv n r c - vget ArR alpha c *: cv n (qrow qm k) c).
+Proof. exact: cv_lz_r2. Qed.
+
 Notation body := (lz_body ArR n C num_iter mm tol brk n_extra).
 Notation loop := (lz_loop ArR n C num_iter mm tol brk n_extra).
 
@@ -212,7 +240,7 @@ Proof.
 move=> Hon; elim: fuel R ip => [|f IH] R ip HR H1 H0 //=.
 case: ifP => _ //=.
 apply: IH => //.
-by rewrite cv_cdiv // vget_cnorm // cv_reorth // HR proj_id // H1 sqrtr1 invr1 scale1r.
+by rewrite Ecdiv Ecnorm Ereorth HR proj_id // H1 sqrtr1 invr1 scale1r.
 Qed.
 
 (* the quantities of one loop body for column c (lines 107-121) *)
@@ -252,8 +280,8 @@ Proof.
 case: st => qm tm; rewrite /al /s_a /s_r /s_w /qv /lz_body /=.
 case: ifP => _ /=.
   case: (extra_passes _ _ _ _ _ _ _ _ _) => r4 could /=.
-  by rewrite !tget_tset !eqxx ?Skk ?kSk /= vget_lz_alpha // cv_lz_r.
-by rewrite tget_tset !eqxx /= vget_lz_alpha // cv_lz_r.
+  by rewrite !tget_tset !eqxx ?Skk ?kSk /= Elz_alpha Elz_r.
+by rewrite tget_tset !eqxx /= Elz_alpha Elz_r.
 Qed.
 
 Lemma body_beta k st : (k.+1 < num_iter)%N -> be (body k st).1 k = s_b k st.
@@ -261,7 +289,7 @@ Proof.
 case: st => qm tm hk; rewrite /be /s_b /s_r2 /s_r1 /s_a /s_r /s_w /qv /lz_body /= hk.
 case: (extra_passes _ _ _ _ _ _ _ _ _) => r4 could /=.
 rewrite !tget_tset !eqxx ?Skk ?kSk /=.
-by rewrite vget_cnorm // cv_lz_r2 // vget_lz_alpha // cv_lz_r.
+by rewrite Ecnorm Elz_r2 Elz_alpha Elz_r.
 Qed.
 
 Lemma body_newq k st :
@@ -274,8 +302,8 @@ set alpha := lz_alpha _ _ _ _ _ _.
 set r2 := lz_r2 _ _ _ _ _ _ _.
 set r3 := cdiv _ _ _ r2 _.
 have HR3 : cv n r3 c = s_r3 k (qm, tm).
-  rewrite /s_r3 /s_b /s_r2 /s_r1 /s_a /s_r /s_w /qv /= /r3 cv_cdiv // vget_cnorm //.
-  by rewrite /r2 cv_lz_r2 // /alpha vget_lz_alpha // /r cv_lz_r.
+  rewrite /s_r3 /s_b /s_r2 /s_r1 /s_a /s_r /s_w /qv /= /r3 Ecdiv Ecnorm.
+  by rewrite /r2 Elz_r2 /alpha Elz_alpha /r Elz_r.
 have Hon' : forall i j, (i <= k)%N -> (j <= k)%N ->
      dotv (cv n (qrow qm i) c) (cv n (qrow qm j) c) = (i == j)%:R.
   by move=> i j hi hj; apply: Hon.
@@ -351,24 +379,24 @@ Definition i_b init : F := Num.sqrt (dotv (i_r1 init) (i_r1 init)).
 Notation st0 := (lz_init ArR n C num_iter mm).
 
 Lemma init_q0 init : qv (st0 init) 0 = i_q0 init.
-Proof. by rewrite /qv /lz_init /= !qrow_qset /= cv_cdiv // vget_cnorm //. Qed.
+Proof. by rewrite /qv /lz_init /= !qrow_qset /= Ecdiv Ecnorm. Qed.
 
 Lemma init_alpha init : al (st0 init) 0 = i_a init.
 Proof.
-rewrite /al /lz_init /= !tget_tset /= vget_cdot // /i_a /i_w /i_q0 /i_v.
-by rewrite cv_cdiv // vget_cnorm //.
+rewrite /al /lz_init /= !tget_tset /= Ecdot /i_a /i_w /i_q0 /i_v.
+by rewrite Ecdiv Ecnorm.
 Qed.
 
 Lemma init_beta init : be (st0 init) 0 = i_b init.
 Proof.
-rewrite /be /lz_init /= !tget_tset /= vget_cnorm // cv_csub // cv_cscale_l //.
-by rewrite vget_cdot // /i_b /i_r1 /i_a /i_w /i_q0 /i_v cv_cdiv // vget_cnorm //.
+rewrite /be /lz_init /= !tget_tset /= Ecnorm Ecsub Ecscale_l.
+by rewrite Ecdot /i_b /i_r1 /i_a /i_w /i_q0 /i_v Ecdiv Ecnorm.
 Qed.
 
 Lemma init_q1 init : qv (st0 init) 1 = (i_b init)^-1 *: i_r1 init.
 Proof.
-rewrite /qv /lz_init /= !qrow_qset /= cv_cdiv // vget_cnorm // cv_csub // cv_cscale_l //.
-by rewrite vget_cdot // /i_b /i_r1 /i_a /i_w /i_q0 /i_v cv_cdiv // vget_cnorm //.
+rewrite /qv /lz_init /= !qrow_qset /= Ecdiv Ecnorm Ecsub Ecscale_l.
+by rewrite Ecdot /i_b /i_r1 /i_a /i_w /i_q0 /i_v Ecdiv Ecnorm.
 Qed.
 
 Lemma init_ON init : i_v init != 0 -> G 2 (st0 init) -> ON 2 (st0 init).
@@ -390,4 +418,103 @@ move=> i j; rewrite !ltnS !leq_eqVlt !ltnS !leqn0 => /orP[/eqP->|/eqP->] /orP[/e
 Qed.
 
 End Column.
+
+(* ---------------------------------------------------------------------------------------------- *)
+(* the returned matrices *)
+Definition mx_of (m n : nat) (M : mat F) : 'M[F]_(m, n) := \matrix_(i, j) mget ArR M i j.
+
+(* flat column of the leading index idx = j * B + b of the result (line 153 / 155: permute) *)
+Definition col_of (B nvec idx : nat) : nat := ((idx %% B) * nvec + idx %/ B)%N.
+
+Lemma col_of_lt B nvec idx : (idx < nvec * B)%N -> (col_of B nvec idx < B * nvec)%N.
+Proof.
+move=> h; rewrite /col_of.
+have B0 : (0 < B)%N by case: B h => //; rewrite muln0.
+have h1 : (idx %% B < B)%N by rewrite ltn_pmod.
+have h2 : (idx %/ B < nvec)%N by rewrite ltn_divLR.
+nia.
+Qed.
+
+Section Final.
+Variable g : lz_args F.
+Variable o : lz_out F.
+Variables (nvec : nat) (init : cols F).
+Hypothesis Hrun : lanczos_tridiag ArR g = Ok o.
+Hypothesis Hstart : lz_start g = Ok (nvec, init).
+
+Let n := g_n g.
+Let B := prodn (g_batch g).
+Let C := (B * nvec)%N.
+Let num_iter := minn (g_max_iter g) n.
+Let r := lz_loop ArR n C num_iter (g_mm g) (g_tol g) (g_brk g) (g_extra g) num_iter.-1 1
+                 (lz_init ArR n C num_iter (g_mm g) init).
+Let m := r.2.+1.
+
+Lemma final_facts :
+  [/\ (1 < num_iter)%N, o_m o = m,
+      o_Q o = mkseq (fun idx => mtab n m (fun x i => vget ArR (qget r.1.1 i (col_of B nvec idx)) x)) (nvec * B) &
+      o_T o = mkseq (fun idx => mtab m m (fun i j => tget ArR r.1.2 i j (col_of B nvec idx))) (nvec * B)].
+Proof.
+have [nvec' [init' /= [Hs Hn Ho]]] := lanczos_tridiag_ok Hrun.
+move: Hs; rewrite Hstart => -[E1 E2]; rewrite -E1 -E2 in Hn Ho.
+by rewrite Ho.
+Qed.
+
+Lemma final_mxQ idx (x : 'I_n) (i : 'I_m) : (idx < nvec * B)%N ->
+  mx_of n m (nth [::] (o_Q o) idx) x i = qv n (col_of B nvec idx) r.1 i x ord0.
+Proof.
+move=> hidx; have [_ _ -> _] := final_facts.
+by rewrite nth_mkseq // !mxE mget_mtab.
+Qed.
+
+Lemma final_mxT idx (i j : nat) : (idx < nvec * B)%N -> (i < m)%N -> (j < m)%N ->
+  mget ArR (nth [::] (o_T o) idx) i j = tget ArR r.1.2 i j (col_of B nvec idx).
+Proof.
+move=> hidx hi hj; have [_ _ _ ->] := final_facts.
+by rewrite nth_mkseq // mget_mtab.
+Qed.
+
+Lemma final_size : size (o_Q o) = (nvec * B)%N /\ size (o_T o) = (nvec * B)%N.
+Proof. by have [_ _ -> ->] := final_facts; rewrite !size_mkseq. Qed.
+
+(* orthonormal columns, for every budget and size, per returned matrix *)
+Lemma final_ON idx : (idx < nvec * B)%N ->
+  cv n init (col_of B nvec idx) != 0 ->
+  (forall j, (j.+1 < m)%N -> mget ArR (nth [::] (o_T o) idx) j j.+1 != 0) ->
+  ON n (col_of B nvec idx) m r.1.
+Proof.
+move=> hidx Hv HG.
+have [Hn _ _ _] := final_facts.
+have hc := col_of_lt hidx.
+have f0 : (0 < num_iter.-1)%N by lia.
+have Hk : (1 + num_iter.-1 = num_iter)%N by lia.
+apply: (@loop_ON n C num_iter (g_mm g) (g_tol g) (g_brk g) (g_extra g) _ hc num_iter.-1 1 _ f0 Hk (ltn0Sn 0)).
+  exact: init_ON.
+move=> j hj; rewrite /be -final_mxT //; first exact: HG.
+by rewrite -/r -/m; lia.
+Qed.
+
+End Final.
+
+(* Theorem (orthonormality).  Exact arithmetic, any closure, any sizes / batch / number of start vectors / budget:
+   if the start vector of a column is non-zero and no beta of that column that was divided by vanishes
+   (the off-diagonal entries of the returned T), the returned Q has orthonormal columns. *)
+Theorem lanczos_orthonormal_rcf (g : lz_args F) o nvec init :
+  lanczos_tridiag ArR g = Ok o -> lz_start g = Ok (nvec, init) ->
+  forall idx, (idx < size (o_Q o))%N ->
+    let n := g_n g in let m := o_m o in
+    let Q := nth [::] (o_Q o) idx in let T := nth [::] (o_T o) idx in
+    cv n init (col_of (prodn (g_batch g)) nvec idx) != 0 ->
+    (forall j, (j.+1 < m)%N -> mget ArR T j j.+1 != 0) ->
+    (mx_of n m Q)^T *m mx_of n m Q = 1%:M.
+Proof.
+move=> Hrun Hstart idx; rewrite (final_size Hrun Hstart).1 => hidx /=.
+have [_ Em _ _] := final_facts Hrun Hstart.
+rewrite Em => Hv HG.
+have Hon := final_ON Hrun Hstart hidx Hv HG.
+apply/matrixP => i j; rewrite !mxE.
+under eq_bigr => x _ do rewrite mxE !(final_mxQ Hrun Hstart _ _ hidx).
+by rewrite -dotvE Hon.
+Qed.
+
 End Alg.
